@@ -111,7 +111,7 @@ class C13Machine(RuleBasedStateMachine):
     def stat_live(self, fd, unstable):
         self.ex.fd_filestat_get(fd, unstable)
 
-    @rule(which=st.sampled_from([1, 2]), bufs=st.lists(st.binary(min_size=1, max_size=20), min_size=1, max_size=3))
+    @rule(which=st.sampled_from([1, 2, 1, 0]), bufs=st.lists(st.binary(min_size=1, max_size=20), min_size=1, max_size=3))
     def write_std(self, which, bufs):
         self.ex.flags.add('stdio')
         self.ex.fd_write(which, bufs)
@@ -149,10 +149,10 @@ class C13Machine(RuleBasedStateMachine):
         self.ex.close_std(which)
         return which
 
-    @rule(lens=st.lists(st.sampled_from([1, 3, 8]), min_size=1, max_size=2))
-    def read_stdin(self, lens):
+    @rule(lens=st.lists(st.sampled_from([1, 3, 8]), min_size=1, max_size=2), which=st.sampled_from([0, 0, 0, 1, 2]))
+    def read_stdin(self, lens, which):
         self.ex.flags.add('stdio')
-        self.ex.fd_read(0, lens)
+        self.ex.fd_read(which, lens)
 
     @rule(i=st.integers(0, 2))
     def prestat(self, i):
